@@ -1,8 +1,10 @@
 package c09
 
 import (
+	"encoding/json"
 	"fmt"
 	"sort"
+	"strconv"
 	"testing"
 	"time"
 
@@ -111,6 +113,58 @@ func drawModel(rt *rapid.T, nowSec int64, skew time.Duration, iatMustHold, tame 
 	return m
 }
 
+// addTypedNumberClaims adds custom claims whose Go value is a number type other than float64 (int,
+// int64, uint32, float32, json.Number - inside an array too). RawJWTOptions does not say which Go
+// types a custom claim may have; what the property fixes is that a claim which NewRawJWT accepts
+// round-trips: the token carries the JSON number with that value. The values are exactly
+// representable as float64 (|integers| <= 2^53, float32 widened, json.Number from float64 text), so
+// "that value" is unambiguous. typed lists the names, for the fallback when NewRawJWT refuses a type.
+func addTypedNumberClaims(rt *rapid.T, m *model) (typed []string) {
+	n := rapid.IntRange(0, 2).Draw(rt, "typed_claims")
+	for i := 0; i < n; i++ {
+		name := fmt.Sprintf("typed%d_%s", i, rapid.StringMatching(`[a-z]{0,4}`).Draw(rt, fmt.Sprintf("typed%d_name", i)))
+		label := fmt.Sprintf("typed%d", i)
+		var val any
+		var want float64
+		switch kind := rapid.SampledFrom([]string{"int", "int64", "uint32", "float32", "json.Number"}).Draw(rt, label+"_type"); kind {
+		case "int":
+			x := int(rapid.Int64Range(-(1<<53), 1<<53).Draw(rt, label))
+			if rapid.IntRange(0, 3).Draw(rt, label+"_edge") == 0 {
+				x = rapid.SampledFrom([]int{0, 1, -1, 255, 256, 65536, 1 << 31, -(1 << 31), 1 << 32, 1<<53 - 1, 1 << 53, -(1 << 53)}).Draw(rt, label+"_edgeval")
+			}
+			val, want = x, float64(x)
+		case "int64":
+			x := rapid.Int64Range(-(1<<53), 1<<53).Draw(rt, label)
+			if rapid.IntRange(0, 3).Draw(rt, label+"_edge") == 0 {
+				x = rapid.SampledFrom([]int64{0, -1, 1 << 31, 1<<31 - 1, -(1 << 31) - 1, 1 << 32, 1700000000, 253402300799, 1 << 53, -(1 << 53)}).Draw(rt, label+"_edgeval")
+			}
+			val, want = x, float64(x)
+		case "uint32":
+			x := rapid.SampledFrom([]uint32{0, 1, 1<<31 - 1, 1 << 31, 1<<32 - 1, rapid.Uint32().Draw(rt, label)}).Draw(rt, label+"_val")
+			val, want = x, float64(x)
+		case "float32":
+			x := rapid.SampledFrom([]float32{0, 1, -1, 0.5, -0.25, 0.1, 16777216, 16777217, 3.4028235e38, 1e-45, rapid.Float32().Draw(rt, label)}).Draw(rt, label+"_val")
+			val, want = x, float64(x)
+		default:
+			f := rapid.SampledFrom([]float64{0, 1, -1, 12, 0.5, -0.25, 1e3, 123456789, 1700000000, 1 << 53, float64(rapid.Int64Range(-(1<<53), 1<<53).Draw(rt, label))}).Draw(rt, label+"_val")
+			txt := strconv.FormatFloat(f, rapid.SampledFrom([]byte{'f', 'g', 'e'}).Draw(rt, label+"_fmt"), -1, 64)
+			val, want = json.Number(txt), f
+		}
+		if m.opts.CustomClaims == nil {
+			m.opts.CustomClaims = map[string]any{}
+		}
+		if rapid.IntRange(0, 3).Draw(rt, label+"_in_array") == 0 {
+			m.opts.CustomClaims[name] = []any{val, "x"}
+			m.claims[name] = []any{want, "x"}
+		} else {
+			m.opts.CustomClaims[name] = val
+			m.claims[name] = want
+		}
+		typed = append(typed, name)
+	}
+	return typed
+}
+
 // matchingValidator draws a validator that must accept the model at now under skew.
 func matchingValidator(rt *rapid.T, m model, now time.Time, skew time.Duration, expectIAT bool) jwtref.Validator {
 	v := jwtref.Validator{Now: now, Skew: skew, ExpectIssuedInThePast: expectIAT}
@@ -174,57 +228,97 @@ func TestRoundTrip(t *testing.T) {
 		skew := rapid.SampledFrom(wholeSkews).Draw(rt, "skew")
 		now := drawNow(rt, 601)
 		m := drawModel(rt, now.Unix(), skew, true, false)
+		typed := addTypedNumberClaims(rt, &m)
 		_, hasIAT := m.claims["iat"]
 		expectIAT := hasIAT && rapid.Bool().Draw(rt, "v_expect_iat")
 		v := matchingValidator(rt, m, now, skew, expectIAT)
-		ctx := fmt.Sprintf("round trip with %v\nmodel typ=%s claims=%s", k, pstr(m.typ), jtext(m.claims))
-
-		raw, err := jwt.NewRawJWT(m.opts)
-		if err != nil {
-			rt.Fatalf("%s\nNewRawJWT refuses documented options: %v", ctx, err)
-		}
-		token, err := p.sign(raw)
-		if err != nil {
-			rt.Fatalf("%s\nsigning fails: %v", ctx, err)
-		}
-		ctx += fmt.Sprintf("\ntoken=%q\n%s", token, vdesc(v))
-
-		// the three parts, decoded with the strict reference decoder
-		d := jwtref.Decide(token, p.refs, v)
-		if !d.Accept {
-			rt.Fatalf("%s\nthe reference rejects Tink's own token: %s (silent constructs %v)", ctx, d.Reason, d.Silent)
-		}
-		for _, s := range d.Silent {
-			if s != "payload-odd-number" { // Tink may write 1e+21; everything else must be canonical
-				rt.Fatalf("%s\nTink's own token contains %s", ctx, s)
+		// signAndCheck signs one model on the party's (single) signer / MAC object and checks the token
+		// parts, the reference's decision, Tink's verification and every accessor.
+		signAndCheck := func(which string, m model, v jwtref.Validator) (string, string) {
+			ctx := fmt.Sprintf("round trip with %v\n%s model typ=%s claims=%s", k, which, pstr(m.typ), jtext(m.claims))
+			raw, err := jwt.NewRawJWT(m.opts)
+			if err != nil && which == "first" && len(typed) > 0 {
+				// the Go type of a custom claim is not part of the documented domain: take the float64 form
+				evid.Add("typed_number_claims_refused", 1)
+				for _, name := range typed {
+					m.opts.CustomClaims[name] = m.claims[name]
+				}
+				raw, err = jwt.NewRawJWT(m.opts)
 			}
+			if err != nil {
+				rt.Fatalf("%s\nNewRawJWT refuses documented options: %v", ctx, err)
+			}
+			token, err := p.sign(raw)
+			if err != nil {
+				rt.Fatalf("%s\nsigning fails: %v", ctx, err)
+			}
+			ctx += fmt.Sprintf("\ntoken=%q\n%s", token, vdesc(v))
+
+			// the three parts, decoded with the strict reference decoder
+			d := jwtref.Decide(token, p.refs, v)
+			if !d.Accept {
+				rt.Fatalf("%s\nthe reference rejects Tink's own token: %s (silent constructs %v)", ctx, d.Reason, d.Silent)
+			}
+			for _, s := range d.Silent {
+				if s != "payload-odd-number" { // Tink may write 1e+21; everything else must be canonical
+					rt.Fatalf("%s\nTink's own token contains %s", ctx, s)
+				}
+			}
+			wantHeader := map[string]any{"alg": k.alg}
+			if kid, ok := k.kid(); ok {
+				wantHeader["kid"] = kid
+			}
+			if m.typ != nil {
+				wantHeader["typ"] = *m.typ
+			}
+			if !jsonEqual(any(d.Header), any(wantHeader)) {
+				rt.Fatalf("%s\nheader is %s, want exactly %s", ctx, jtext(d.Header), jtext(wantHeader))
+			}
+			if !jsonEqual(any(d.Claims), any(m.claims)) {
+				rt.Fatalf("%s\npayload %q is not JSON-equal to the model", ctx, d.Payload)
+			}
+
+			got, err := p.verify(token, tinkValidator(rt, v, rapid.IntRange(0, 9).Draw(rt, "deprecated_aud_field") == 0))
+			if err != nil {
+				rt.Fatalf("%s\na token Tink made is REJECTED by the matching validator: %v", ctx, err)
+			}
+			checkVerified(rt, ctx, got, m.typ, m.claims)
+
+			// the RawJWT itself answers the same questions before signing
+			if js, err := raw.JSONPayload(); err != nil {
+				rt.Fatalf("%s\nRawJWT.JSONPayload: %v", ctx, err)
+			} else if v, _, perr := jwtref.ParseJSON(js); perr != nil || !jsonEqual(v, any(m.claims)) {
+				rt.Fatalf("%s\nRawJWT.JSONPayload %q differs from the model (%v)", ctx, js, perr)
+			}
+			return token, ctx
 		}
-		wantHeader := map[string]any{"alg": k.alg}
-		if kid, ok := k.kid(); ok {
-			wantHeader["kid"] = kid
-		}
+		token, ctx := signAndCheck("first", m, v)
+
+		// A second model on the SAME signer / MAC and verifier object: the other typ presence and
+		// other claims. Its header and claims must be its own (nothing carried over from the first
+		// token), and the first token must verify afterwards exactly as before.
+		m2 := drawModel(rt, now.Unix(), skew, true, false)
 		if m.typ != nil {
-			wantHeader["typ"] = *m.typ
+			m2.typ, m2.opts.TypeHeader = nil, nil
+		} else {
+			ty := drawString(rt, "typ2")
+			m2.typ, m2.opts.TypeHeader = sptr(ty), sptr(ty)
 		}
-		if !jsonEqual(any(d.Header), any(wantHeader)) {
-			rt.Fatalf("%s\nheader is %s, want exactly %s", ctx, jtext(d.Header), jtext(wantHeader))
+		jti2 := "second"
+		if j, ok := m.claims["jti"]; ok {
+			jti2 = j.(string) + "+"
 		}
-		if !jsonEqual(any(d.Claims), any(m.claims)) {
-			rt.Fatalf("%s\npayload %q is not JSON-equal to the model", ctx, d.Payload)
-		}
-
-		got, err := p.verify(token, tinkValidator(rt, v, rapid.IntRange(0, 9).Draw(rt, "deprecated_aud_field") == 0))
+		m2.opts.JWTID, m2.claims["jti"] = sptr(jti2), jti2
+		_, hasIAT2 := m2.claims["iat"]
+		v2 := matchingValidator(rt, m2, now, skew, hasIAT2 && rapid.Bool().Draw(rt, "v2_expect_iat"))
+		_, ctx2 := signAndCheck("second (same objects)", m2, v2)
+		again, err := p.verify(token, tinkValidator(rt, v, false))
 		if err != nil {
-			rt.Fatalf("%s\na token Tink made is REJECTED by the matching validator: %v", ctx, err)
+			rt.Fatalf("%s\nafter signing and verifying a second token on the same objects:\n%s\nthe FIRST token is rejected: %v", ctx, ctx2, err)
 		}
-		checkVerified(rt, ctx, got, m.typ, m.claims)
-
-		// the RawJWT itself answers the same questions before signing
-		if js, err := raw.JSONPayload(); err != nil {
-			rt.Fatalf("%s\nRawJWT.JSONPayload: %v", ctx, err)
-		} else if v, _, perr := jwtref.ParseJSON(js); perr != nil || !jsonEqual(v, any(m.claims)) {
-			rt.Fatalf("%s\nRawJWT.JSONPayload %q differs from the model (%v)", ctx, js, perr)
-		}
+		checkVerified(rt, ctx+"\n(verified again after the second token)\n"+ctx2, again, m.typ, m.claims)
+		evid.Add("roundtrip_second_tokens", 1)
+		evid.Add("typed_number_claims", int64(len(typed)))
 
 		kinds := map[string]bool{}
 		for name, c := range m.claims {
